@@ -11,6 +11,8 @@ import Driver.Hist
 import Driver.Legacy
 import Driver.Nlp
 import Driver.C03
+import Driver.AtomicWrite
+import Driver.Notebook
 
 namespace Driver
 
@@ -31,6 +33,8 @@ def dispatch (dom : String) (ops : Array String) : Array String :=
   | "legacy" => Legacy.runCase ops
   | "nlp" => Nlp.runCase ops
   | "c03" => C03.runCase ops
+  | "atomicwrite" => AtomicWrite.runCase ops
+  | "notebook" => Notebook.runCase ops
   | _ => ops.map (fun _ => "unknown-domain")
 
 end Driver
